@@ -296,7 +296,8 @@ func gateCases(r *core.Run) {
 			}
 			call("stored-height-above-lowered-latest", mk(H3), proofAt[H3], mustReject, "latest-lowered-to-H1-by-upgrade", lower(H1))
 			call("stored-height-above-lowered-latest", mk(H2), proofAt[H2], mustReject, "latest-lowered-to-H1-by-upgrade", lower(H1))
-			call("stored-height-at-lowered-latest", mk(H1), proofAt[H1], mustAccept, "latest-lowered-to-H1-by-upgrade", lower(H1))
+			// the upgrade (re)installs H1, which counts as processing it now (fix f27930c): whether the delay has passed is not pinned here
+			call("stored-height-at-lowered-latest", mk(H1), proofAt[H1], either, "latest-lowered-to-H1-by-upgrade", lower(H1))
 			call("stored-height-below-lowered-latest", mk(H1), proofAt[H1], mustAccept, "latest-lowered-to-H2-by-upgrade", lower(H2))
 			call("stored-height-at-latest", mk(H3), proofAt[H3], mustAccept, "all-delays-passed", nil)
 			call("stored-height-below-latest", mk(H2), proofAt[H2], mustAccept, "all-delays-passed", nil)
